@@ -103,6 +103,9 @@ func checkC20(c *Check) {
 	c.floor("envelope formats", 2, len(fmts))
 	// (2)
 	wrapperSignRules(c, false, true)
+	// the request is canonicalised before it is validated and signed: otherwise a request whose
+	// times collapse to one second is signed and the object then refuses its own content
+	truncationRules(c, "O-C20.2")
 	// (4) wrapper reads
 	for _, m := range []struct{ fn, inner string }{{baseVerify, "Verify"}, {baseContent, "Content"}} {
 		stateRules(c, m.fn, m.inner)
